@@ -23,9 +23,11 @@ def main():
         {"harness": "c14", "cfg": {"requests": "2", "alphabet": "reduced"}, "budget_s": 40 if tier == "quick" else 300,
          "label": "all ordered pairs of requests from a reduced alphabet of 12 x 3 broker states, then the probe: " + U},
     ]
+    passes.append({"harness": "c14", "cfg": {"requests": "2", "alphabet": "reduced", "overlap": "1"}, "budget_s": 40 if tier == "quick" else 300,
+                   "label": "all ordered pairs from the reduced alphabet arriving at the same instant or one second apart (overlapping; valid proxy polls share a session id) x 3 broker states, then the probe: " + U})
     if tier != "quick":
         passes.append({"harness": "c14", "cfg": {"requests": "3", "alphabet": "reduced"}, "budget_s": 300, "label": "all ordered triples from the reduced alphabet x 3 states"})
-    summary, tot, samples, exh = sched.run_passes(rep, binary, passes, 140 if tier == "quick" else 900)
+    summary, tot, samples, exh = sched.run_passes(rep, binary, passes, 180 if tier == "quick" else 1200)
     sched.sched_coverage(rep, summary, tot, samples, exh)
     # tier 2: the same matrix as raw HTTP exchanges with the broker binary
     c14_t2.run(rep, tier)
